@@ -3,7 +3,6 @@
 manifest is always complete and valid).  BUILT lists the properties whose checks exist."""
 import json, subprocess
 
-BUILT = ["C01", "C02", "C03", "C04", "C05", "C06", "C07", "C08", "C09", "C10", "C11", "C12", "C13", "C20"]
 
 HOOK_COMMITS = subprocess.run(
     ["git", "-C", "/repo", "log", "--format=%H", "--grep=^verif-hooks:"], capture_output=True, text=True
@@ -71,6 +70,8 @@ P = {
          "Outputs of storage x {plain, Cobs, Crc(5 widths), Crc-inside-Cobs} stacks are compared with reference COBS/CRC transforms of the reference encoding, layers are undone in reverse, and recording user flavours must see exactly the plain encoding.",
          "Trusts reference COBS and CRC."),
 }
+
+BUILT = sorted(P)
 
 REASON_NOT_BUILT = "check under construction in this session (design in DESIGN.md section 4); not claimed until its monitor exists and is silent on the unchanged tree"
 
